@@ -136,7 +136,10 @@ def symbols_of(decl):
     if k == 'struct_def':
         ct = CTYPE_UNION if decl.get('union') else CTYPE_STRUCT
         st = CSYMBOL_TYPE_UNION if decl.get('union') else CSYMBOL_TYPE_STRUCT
-        return [FSym(st, decl['tag'], FType(ct, decl['tag'], None, build_members(decl['members'], f, ln)), f, ln)]
+        # the symbol carries the line on which the definition ends ("};"), as the real parser's
+        # does (calibrated on tests/scanner/typedefs.h)
+        end = ln + 1 + len(decl['members'])
+        return [FSym(st, decl['tag'], FType(ct, decl['tag'], None, build_members(decl['members'], f, ln)), f, end)]
     if k == 'typedef_struct':
         ct = CTYPE_UNION if decl.get('union') else CTYPE_STRUCT
         st = CSYMBOL_TYPE_UNION if decl.get('union') else CSYMBOL_TYPE_STRUCT
@@ -144,7 +147,7 @@ def symbols_of(decl):
         members = build_members(decl['members'], f, ln)
         end = ln + 1 + len(decl['members'])
         if decl.get('tag'):
-            out.append(FSym(st, decl['tag'], FType(ct, decl['tag'], None, members), f, ln))
+            out.append(FSym(st, decl['tag'], FType(ct, decl['tag'], None, members), f, end))
         out.append(FSym(CSYMBOL_TYPE_TYPEDEF, decl['name'], FType(ct, decl.get('tag'), None, list(members)), f, end))
         return out
     if k == 'typedef_enum':
